@@ -1,6 +1,8 @@
 package loadbalancer
 
 import (
+	"time"
+
 	"github.com/0xReLogic/Helios/internal/config"
 	"github.com/0xReLogic/Helios/internal/verifrt"
 )
@@ -95,4 +97,41 @@ func VerifC05NegWRR() {
 		}
 	}
 	verifrt.Assert(c0 == w0, "NEGATIVE TWIN: exact share one pick early")
+}
+
+// VerifC05WRRDrift: weighted_round_robin after a health history. One backend
+// is ejected, traffic continues for h picks, the backend recovers; in every
+// window of t <= T picks after that each backend stays within
+// 2 * (total configured weight / eligible weight) of its proportional share:
+// |count_i * W_eligible - t * w_i| <= 2 * W_total.
+func VerifC05WRRDrift(n int, h int, T int) {
+	lb := verifBareLB(2)
+	bs := make([]*Backend, n)
+	total := 0
+	for i := range bs {
+		bs[i] = verifBackend(i)
+		bs[i].Weight = verifrt.IntRange("weight", 1, 2)
+		total += bs[i].Weight
+		lb.strategy.AddBackend(bs[i])
+	}
+	r := verifRequest("10.1.2.3:4711")
+	victim := verifrt.Choice("ejected", n)
+	lb.MarkBackendUnhealthy(bs[victim], 10*time.Second)
+	for i := 0; i < h; i++ {
+		got := lb.findHealthyBackend(r)
+		verifrt.Assert(got != bs[victim], "an ejected backend is not picked")
+	}
+	verifrt.Advance(11 * time.Second)
+	verifrt.Assert(lb.IsBackendHealthy(bs[victim]), "the backend is eligible again after its window")
+	count := make([]int, n)
+	for t := 1; t <= T; t++ {
+		got := lb.findHealthyBackend(r)
+		idx := verifIndexOf(bs, got)
+		verifrt.Assert(idx >= 0, "weighted_round_robin returns a pool member")
+		count[idx]++
+		for i := range bs {
+			d := count[i]*total - t*bs[i].Weight
+			verifrt.Assert(-2*total <= d && d <= 2*total, "weighted_round_robin stays within 2*W_total/W_eligible of the proportional share after a health history")
+		}
+	}
 }
